@@ -225,14 +225,14 @@ def r4(ctx):
     rep = Report("C03.R4", "the policy layer keeps single-key commands atomic: at most one mutation of the command's key per call, reads add none", floor=4)
     f = ctx.facts
     for meth, args in (("set", ["self", "key", "record"]), ("delete", ["self", "key", "header"]), ("remove", ["self", "key"]), ("get", ["self", "key"])):
-        b = f.one(rp(meth))
+        b, dyn = impl_or_default(f, RP, meth)
         rep.analysed(b)
-        I = Interp(f, loop_bound=1)
+        I = Interp(f, loop_bound=1, self_impl=dyn)
         paths = I.run(b, [P(a) for a in args])
         worst = 0
         names = []
         for p in paths:
-            muts = [e for e in p.events if e.kind == "call" and e.name.startswith(CACHE + "::") and e.name.split("::")[-1] in POLICY_MUTATORS and len(e.args) > 1 and P("key") in atoms(e.args[1])]
+            muts = [e for e in p.events if e.kind == "call" and (e.name.startswith(CACHE + "::") or e.name.startswith(IMPLD + "::")) and e.name.split("::")[-1] in POLICY_MUTATORS and len(e.args) > 1 and P("key") in atoms(e.args[1])]
             if len(muts) > worst:
                 worst = len(muts)
                 names = [e.name.split("::")[-1] for e in muts]
